@@ -90,7 +90,12 @@ func (i *interpreter) binopAny(op token.Token, t types.Type, x, y value) value {
 		case token.NEQ:
 			return i.mkval(c.Not(eq), types.Bool)
 		}
-		unsup("operation %s on an abstract (uninterpreted) string", op)
+		if op == token.ADD {
+			// concatenation with an abstract string is an abstract string (uninterpreted CONCAT: only equal
+			// operands are known to give equal results)
+			return opq{t: c.UF("CONCAT", smt.SInt, i.opqTerm(x), i.opqTerm(y)), n: -1}
+		}
+		unsup("operation %s on an abstract (uninterpreted) string in %v", op, i.curFn)
 	}
 	_, xs := x.(symstr)
 	_, ys := y.(symstr)
